@@ -131,6 +131,7 @@ type World struct {
 	LastAcct  map[waddrmgr.KeyScope]uint32
 	Issued    []*Issued
 	Imports   []*Imported
+	Held      []HeldHandle // handles returned by operations of the current manager instance
 	Scopes    []waddrmgr.KeyScope
 	HasCustom bool
 	Synced    waddrmgr.BlockStamp
@@ -295,6 +296,7 @@ func (w *World) Close() {
 
 // Restart closes and reopens manager and database.
 func (w *World) Restart() error {
+	w.Held = nil
 	w.Mgr.Close()
 	if err := w.DB.Close(); err != nil {
 		return err
